@@ -442,3 +442,12 @@ func must(cond bool, format string, args ...any) {
 		panic(fmt.Sprintf(format, args...))
 	}
 }
+
+// allFuncSet: every function of the program as a set.
+func (p *Prog) allFuncSet() map[*ssa.Function]bool {
+	m := map[*ssa.Function]bool{}
+	for _, f := range p.Funcs {
+		m[f] = true
+	}
+	return m
+}
